@@ -1,12 +1,21 @@
 (** C07 — a search expression unfolds to exactly the typed searches its syntax denotes.  Property theorems only.
     Proved for all configurations / all search strings: the structural clauses (every result typed with no unapplied query,
     no duplicates, sorted, the only error is SpilException [or Unmodelled = outside the modelled urllib fragment]) and the
-    distribution of "," alternatives in the path part as a cartesian product.  The full denotation (aliases, "**" levels
-    restricted to leaf types, narrowing, query application) is an executable python specification (tools/props/c07.py,
-    independent of model and code) compared with the implementation on every run: that part is NOT a theorem (partial). *)
+    distribution of "," alternatives in the path part as a cartesian product; and, for every configuration that passes the
+    decidable guards [wf_loadedb] and [unfold_conf_okb] (aliases have members that are plain tokens, no typed narrowing),
+    the full denotation of Search/UnfoldSpec.v: the result of [unfold_search] is exactly
+        { x | b in bodies s, y typed search denoted by b ("/**" = n levels "/*" up to a leaf type), x = y narrowed }
+    for a query-free search, and the same with one url-safe query per choice of "," alternatives / alias members applied
+    through the C04 table before narrowing for a search with a trailing query k1=v1&..&kn=vn; together with the exact
+    error condition (SpilException iff some body has several "/**" or one "/**" on a root without type or leaf key).
+    What stays outside the theorems (partial): queries outside the url-safe fragment (percent escapes, ";" "+" blank
+    values: the oracle tools/props/c07.py states their denotation and is compared with the implementation on every run),
+    search strings containing "?" in the body, ":" (uri form), newline or the internal start marker, and
+    configurations with typed narrowing. *)
 From Coq Require Import List String Ascii Bool Arith Permutation Sorted.
 From Spil Require Import Base.Str Base.Dict Base.Outcome Regex.Re Conf.Conf Conf.WF Sid.Sid
-  Search.Unfold Search.FindList Search.GlobProofs Search.FindListProofs Search.UnfoldProofs.
+  Search.Unfold Search.FindList Search.GlobProofs Search.FindListProofs Search.UnfoldProofs
+  Search.UnfoldSpec Search.DenoteTable Search.DenoteProofs.
 From SpilGen Require Hamlet.
 Import ListNotations.
 Local Open Scope string_scope.
@@ -44,3 +53,75 @@ Example C07_instance :
   end = ["asset__assettype:hamlet/a/*"; "shot__sequence:hamlet/s/*"].
 Proof. vm_compute. reflexivity. Qed.
 Print Assumptions C07_instance.
+
+(** ** The denotation (Search/UnfoldSpec.v), for every configuration passing the guards *)
+
+(* query-free search: exactly the narrowed typed searches of its bodies *)
+Theorem C07_denotation : forall c Ld, load c = Some Ld -> wf_loadedb Ld = true -> unfold_conf_okb Ld = true ->
+  forall s l, search_ok s = true -> unfold_search Ld s false false = Ok l ->
+  forall x, In x l <-> exists b y, In b (bodies Ld s) /\ typed_of Ld b y /\ narrowed Ld y x.
+Proof. exact unfold_noquery_spec. Qed.
+Print Assumptions C07_denotation.
+
+(* ... and exactly when it is an error *)
+Theorem C07_denotation_errors : forall c Ld, load c = Some Ld -> wf_loadedb Ld = true -> unfold_conf_okb Ld = true ->
+  forall s, search_ok s = true ->
+  ((exists b, In b (bodies Ld s) /\ body_error Ld b) -> unfold_search Ld s false false = Raise SpilException) /\
+  ((forall b, In b (bodies Ld s) -> ~ body_error Ld b) -> narrowing_readable Ld = true ->
+   exists l, unfold_search Ld s false false = Ok l).
+Proof. exact unfold_noquery_errors. Qed.
+Print Assumptions C07_denotation_errors.
+
+(* the same with narrowing read declaratively (the C04 table on the fields; no apply_query in the statement) *)
+Theorem C07_denotation_decl : forall c Ld, load c = Some Ld -> wf_loadedb Ld = true -> unfold_conf_okb Ld = true ->
+  forall s l, search_ok s = true -> narrowing_simple Ld = true -> unfold_search Ld s false false = Ok l ->
+  forall x, In x l <-> exists b y, In b (bodies Ld s) /\ typed_of Ld b y /\ narrowed_decl Ld y x.
+Proof. exact unfold_noquery_decl. Qed.
+Print Assumptions C07_denotation_decl.
+
+(* trailing url-safe query: every choice of value alternatives / alias members, applied, then narrowed *)
+Theorem C07_query_denotation : forall c Ld, load c = Some Ld -> wf_loadedb Ld = true -> unfold_conf_okb Ld = true ->
+  forall body qd l, search_ok body = true -> query_okb qd = true -> ~ In "" (bodies Ld body) ->
+  unfold_search Ld (body ++ "?" ++ query_str qd) false false = Ok l ->
+  forall x, In x l <->
+    exists b u y x1, In b (bodies Ld body) /\ In u (queries Ld qd) /\ typed_of Ld b y /\
+                     query_applied Ld u y x1 /\ narrowed Ld x1 x.
+Proof. exact unfold_query_spec. Qed.
+Print Assumptions C07_query_denotation.
+
+Theorem C07_query_errors : forall c Ld, load c = Some Ld -> wf_loadedb Ld = true -> unfold_conf_okb Ld = true ->
+  forall body qd, search_ok body = true -> query_okb qd = true -> ~ In "" (bodies Ld body) ->
+  ((exists b, In b (bodies Ld body) /\ body_error Ld b) ->
+   unfold_search Ld (body ++ "?" ++ query_str qd) false false = Raise SpilException) /\
+  ((forall b, In b (bodies Ld body) -> ~ body_error Ld b) -> narrowing_readable Ld = true ->
+   exists l, unfold_search Ld (body ++ "?" ++ query_str qd) false false = Ok l).
+Proof. exact unfold_query_errors. Qed.
+Print Assumptions C07_query_errors.
+
+Theorem C07_query_denotation_decl : forall c Ld, load c = Some Ld -> wf_loadedb Ld = true -> unfold_conf_okb Ld = true ->
+  forall body qd l, search_ok body = true -> query_okb qd = true -> ~ In "" (bodies Ld body) ->
+  narrowing_simple Ld = true ->
+  unfold_search Ld (body ++ "?" ++ query_str qd) false false = Ok l ->
+  forall x, In x l <->
+    exists b ud y x1, In b (bodies Ld body) /\ In ud (query_dicts Ld qd) /\ typed_of Ld b y /\
+                      table_applied Ld ud y x1 /\ narrowed_decl Ld x1 x.
+Proof. exact unfold_query_decl. Qed.
+Print Assumptions C07_query_denotation_decl.
+
+(* a search with at least two segments has no empty body (the guard of the query theorems) *)
+Theorem C07_bodies_nonempty : forall Ld body, mem_c "/" body = true -> ~ In "" (bodies Ld body).
+Proof. exact bodies_nonempty. Qed.
+Print Assumptions C07_bodies_nonempty.
+
+(* the configuration of this run passes every guard of the theorems above *)
+Example C07_guards_hold :
+  unfold_conf_okb Hamlet.the_loaded = true /\ narrowing_readable Hamlet.the_loaded = true
+  /\ narrowing_simple Hamlet.the_loaded = true.
+Proof. vm_compute. auto. Qed.
+Print Assumptions C07_guards_hold.
+
+(* non-vacuity: searches with aliases, "**" and a query satisfy the guards *)
+Example C07_guards_inputs :
+  search_ok "hamlet/a,s/**/movie" = true /\ query_okb [("task", "rig,~x"); ("ext", "movie")] = true.
+Proof. vm_compute. auto. Qed.
+Print Assumptions C07_guards_inputs.
